@@ -266,10 +266,45 @@ func run(e *core.Env) {
 		return nil
 	}()
 
+	// When V last got a frame that names a given router as its source (honest or injected):
+	// looking up the session of a frame's source marks that session as used, and the cleaner
+	// only drops sessions that were not used for a minute. A session that is gone although its
+	// router was heard less than a minute ago was not dropped by the cleaner.
+	heard := map[netip.Addr][]time.Time{}
+	hear := func(data []byte) {
+		if len(data) >= 48 {
+			src := netip.AddrFrom16([16]byte(data[16:32]))
+			heard[src] = append(heard[src], time.Now())
+		}
+	}
+	ms.Net.OnSend = func(c *simnet.Crossing) {
+		if c.To == V {
+			hear(c.Data)
+		}
+	}
 	inject := func(from *simnet.Link, data []byte) {
+		hear(data)
 		p := &simnet.Packet{Conn: from.ConnID(), Dir: 9, Seq: 1, From: from, To: from.Other, Data: data, Tag: "adv", NoDelay: true}
 		ms.Net.DeliverRaw(p)
 		simnet.Wait()
+	}
+	// expiryClass names a replay that met another session object than the original: the recorded
+	// finding if the cleaner can have dropped the session, a violation of its own otherwise.
+	expiryClass := func(src netip.Addr, since time.Time) string {
+		// the longest silence of src (as V heard it) since the original was delivered
+		prev, longest := since, time.Duration(0)
+		for _, t := range heard[src] {
+			if t.Before(since) {
+				continue
+			}
+			longest = max(longest, t.Sub(prev))
+			prev = t
+		}
+		longest = max(longest, time.Since(prev))
+		if longest < 50*time.Second {
+			return "replayed-after-session-vanished-without-expiry"
+		}
+		return "replayed-after-session-expiry"
 	}
 	// trial presents a tampered copy and demands an unchanged snapshot.
 	trial := func(kind, what string, from *simnet.Link, data []byte, ignoreExpiry bool) {
@@ -282,7 +317,7 @@ func run(e *core.Env) {
 		ms.CheckPanics("worker-panic")
 		if d := before.diff(after, ignoreExpiry); d != "" {
 			cls := "state-changed-by-" + what + "/" + kind
-			if what == "replayed-after-session-expiry" {
+			if strings.HasPrefix(what, "replayed-after-session-") {
 				cls = "state-changed-by-" + what
 			}
 			e.Fail(cls, "a %s %s ping changed V's state: %s", what, kind, d)
@@ -293,6 +328,7 @@ func run(e *core.Env) {
 	var library [][]byte // captured pings for later replays
 	var libKinds []string
 	var libSrc []netip.Addr
+	var libAt []time.Time        // when the original was delivered
 	var libSess []*state.Session // V's session object for the source when the original was delivered
 	errCool := map[string]time.Time{}
 
@@ -501,6 +537,7 @@ func run(e *core.Env) {
 			libKinds = append(libKinds, kind)
 			libSrc = append(libSrc, netip.AddrFrom16([16]byte(orig[16:32])))
 			libSess = append(libSess, nil)
+			libAt = append(libAt, time.Now())
 
 			// ---- honest delivery of the original ----
 			pre := takeSnap(V)
@@ -561,7 +598,7 @@ func run(e *core.Env) {
 			if now, _ := V.State.VerifPeekSession(libSrc[k]); libSess[k] != nil && now != libSess[k] {
 				// also here the source's session may have been dropped meanwhile (several short
 				// clock jumps add up to more than a minute): the recorded finding, not a new one
-				what = "replayed-after-session-expiry"
+				what = expiryClass(libSrc[k], libAt[k])
 				e.Probe("replay_after_session_expiry")
 			}
 			if libKinds[k] == "announce" && libSrc[k] == X.IP && tp.Chance(1, 2) {
@@ -603,9 +640,48 @@ func run(e *core.Env) {
 			mkPkt(Z.IP, 6, 443)
 			mkPkt(X.IP, 17, 53)
 			drainTun()
+			// While V holds no session for the source (the state in which a frame of that source
+			// is a first contact again), changed and forged copies of the old ping are presented
+			// first: looking up or creating the session of a claimed source is not a reason to
+			// change anything V has stored about that router - in half of the cases the router
+			// had announced that it goes offline (what the disconnect handler records).
+			if now, _ := V.State.VerifPeekSession(libSrc[k]); now == nil && libSrc[k] != V.IP {
+				if r, err := V.Storage.GetRouter(libSrc[k]); err == nil && r != nil && tp.Chance(1, 2) {
+					_ = V.State.MarkRouterOffline(libSrc[k])
+					e.Probe("source_marked_offline_before_unauthenticated_frames")
+				}
+				orig := library[k]
+				msgStart := 49 + int(orig[48]) + 2
+				mut := append([]byte(nil), orig...)
+				pos := msgStart + tp.Intn(len(mut)-msgStart)
+				if f, err := mesh.ParseCrossing(parser, orig); err == nil {
+					if apx := len(f.AppendixData()); apx > 0 && pos >= len(mut)-apx {
+						pos = msgStart
+					}
+					f.ReturnToPool()
+				}
+				mut[pos] ^= 1 << tp.Intn(8)
+				trial(libKinds[k], "tampered-without-session", linkXV, mut, false)
+				e.Fault("corrupt_bit")
+				if f, err := mesh.ParseCrossing(parser, append([]byte(nil), orig...)); err == nil {
+					if fv, ok := f.(*frame.FrameV1); ok && orig[4] != 2 {
+						ttl := fv.TTL()
+						fv.SetTTL(0)
+						clear(fv.AuthData())
+						fv.SetSequenceTime(time.Now().Round(time.Millisecond))
+						_ = fv.SignRaw(ghost.PrivateKey)
+						fv.SetTTL(ttl)
+						d, _ := fv.FrameDataWithMargins(0, 0)
+						trial(libKinds[k], "forged-signature-without-session", linkXV, append([]byte(nil), d...), false)
+						e.Fault("inject")
+					}
+					f.ReturnToPool()
+				}
+				e.Probe("unauthenticated_frames_without_session")
+			}
 			what := "replayed-later"
 			if now, _ := V.State.VerifPeekSession(libSrc[k]); libSess[k] != nil && now != libSess[k] {
-				what = "replayed-after-session-expiry"
+				what = expiryClass(libSrc[k], libAt[k])
 				e.Probe("replay_after_session_expiry")
 			}
 			trial(libKinds[k], what, linkXV, append([]byte(nil), library[k]...), libKinds[k] == "announce")
